@@ -18,11 +18,11 @@ ASSUME_COMMON = [
 # Direction B: TLC enumerates cases of Cases.tla and the outcomes Machine.tla allows; the harness
 # replays them on the real engines.
 # ------------------------------------------------------------------------------------------------
-def exec_cases(ctx, tag, families, rate, workers=10, timeout=900):
+def exec_cases(ctx, tag, families, rate, workers=10, timeout=900, devs=None):
     """Run MC_Exec for the given families; returns the REPLAY records (case + allowed outcome)."""
     consts = dict(BASE_CONSTS)
     consts.update({"Seed": ctx.seed, "Rate": rate, "Families": set(families),
-                   "KnownDevs": set(core.known_devs(ctx.prop))})
+                   "KnownDevs": set(core.known_devs(ctx.prop)) if devs is None else set(devs)})
     r = run_tlc(f"{ctx.prop}-{tag}", "MC_Exec", consts, invariants=["Inv"], workers=workers, timeout=timeout)
     if r.violation:
         # a design-level invariant of the specification itself failed
@@ -716,7 +716,115 @@ def run_C18(ctx):
     ctx.nontrivial = summ["configs"] + len(recs)
 
 
+def run_C20(ctx):
+    import re
+    core.build_harness(nostd=True)
+    hexs = lambda b: "".join(f"{x:02x}" for x in b)
+    corpus = []
+    spec = []
+    # assembler texts: token programs of MC_Text (with the specified result) + fuzz strings
+    trecs = text_cases(ctx, ["asm", "disasm"], 96 if ctx.quick else 8, "text")
+    asm_recs = [x for x in trecs if x["kind"] == "asm"]
+    tmp_cases = os.path.join(ctx.workdir, "asm.cases.ndjson")
+    open(tmp_cases, "w").write("\n".join(json.dumps(x) for x in asm_recs) + "\n")
+    texts = os.path.join(ctx.workdir, "asm.texts.ndjson")
+    rv(["render", "--cases", tmp_cases, "--fuzz", str(3000 if ctx.quick else 200000), "--seed", str(ctx.seed), "--out", texts])
+    tl = [json.loads(x) for x in open(texts)]
+    for k, t in enumerate(tl):
+        corpus.append(t)
+        if k < len(asm_recs):
+            e = asm_recs[k]["exp"]
+            spec.append("ok " + hexs(e["bytes"]) if e["ok"] else "err")
+        else:
+            spec.append("")
+    for x in trecs:
+        if x["kind"] == "disasm":
+            corpus.append({"t": "disasm", "bytes": x["bytes"]})
+            spec.append("")
+    # verifier inputs
+    r = run_tlc(f"{ctx.prop}-verdict", "MC_Verdict", {"Fams": {1, 2, 3, 4, 5}, "Seed": ctx.seed, "Rate": 64 if ctx.quick else 4},
+                invariants=["Inv"], workers=10, timeout=1500)
+    ctx.add_tlc("MC_Verdict (corpus)", r)
+    for x in r.replay:
+        corpus.append({"t": "verdict", "prog": x["prog"], "extra": x["extra"]})
+        spec.append("accept" if x["accept"] else "reject")
+    # programs and inputs on the interpreter and the JIT
+    recs = exec_cases(ctx, "exec", ["alu", "jmp", "mem", "ctx", "far"], 96 if ctx.quick else 8, timeout=1500,
+                      devs={f["key"] for f in core.load_known()["findings"] if "interpreter" in f["where"]})
+    key_of = lambda c: json.dumps([c["fam"], c["id"], c["vm"]])
+    # cases on which a recorded interpreter finding changes the interpreter's answer: both builds
+    # must still agree there, but the specification's answer is not demanded (that is C01's finding)
+    deviating = {key_of(x["case"]) for x in recs if x["case"]["dev"]}
+    # cases for which the specification admits several outcomes have no single specified answer
+    from collections import Counter
+    multi = Counter(key_of(x["case"]) for x in recs if not x["case"]["dev"])
+    deviating |= {k for k, n in multi.items() if n > 1}
+    seen = set()
+    for x in recs:
+        c, e = x["case"], x["exp"]
+        key = key_of(c)
+        if c["helpers"] or c["calc"] or c["dev"] or key in seen:
+            continue
+        if not e["defd"]:
+            continue          # depends on raw addresses / undefined state: outside every claim
+        seen.add(key)
+        good = e["k"] == "ok" and e["defd"]
+        out = f"ok {int.from_bytes(bytes(e['val']), 'little'):#x} pkt={hexs(e['pkt'])} mbuf={hexs(e['mbuf'])}" if good else ""
+        corpus.append({"t": "run", "case": c})
+        spec.append("" if key in deviating else out)
+        if good:
+            corpus.append({"t": "jit", "case": c})
+            spec.append("" if multi[key] > 1 else out)
+    for k, rec in enumerate(corpus):
+        rec["n"] = k + 1
+    cpath = os.path.join(ctx.workdir, "corpus.ndjson")
+    open(cpath, "w").write("\n".join(json.dumps(x) for x in corpus) + "\n")
+    spath = os.path.join(ctx.workdir, "transcript.spec.ndjson")
+    open(spath, "w").write("\n".join(json.dumps({"n": k + 1, "t": corpus[k]["t"], "out": o}) for k, o in enumerate(spec)) + "\n")
+    a = os.path.join(ctx.workdir, "transcript.std.ndjson")
+    b = os.path.join(ctx.workdir, "transcript.nostd.ndjson")
+    rv(["transcript", "--corpus", cpath, "--out", a], timeout=3000)
+    p = core.sh([os.path.join(ROOT, "harness_nostd", "target", "debug", "rv_nostd"), "transcript", "--corpus", cpath, "--out", b], cwd=ROOT, timeout=3000)
+    ctx.evaluations += 2 * len(corpus)
+    ctx.extra["corpus"] = {t: sum(1 for x in corpus if x["t"] == t) for t in ("asm", "disasm", "verdict", "run", "jit")}
+    ctx.extra["lines_with_specified_answer"] = sum(1 for o in spec if o)
+    la, lb, ls = (open(x).read().splitlines() for x in (a, b, spath))
+    attempt = 0
+    validated = 0
+    while ls and attempt < 8:
+        attempt += 1
+        fa, fb, fs = (os.path.join(ctx.workdir, f"pair.{n}.try{attempt}.ndjson") for n in ("std", "nostd", "spec"))
+        for fn, ll in ((fa, la), (fb, lb), (fs, ls)):
+            open(fn, "w").write("\n".join(ll) + "\n")
+        rr = run_tlc(f"{ctx.prop}-pair-{attempt}", "TracePair", {}, spec="TraceSpec", invariants=["Mark"], postcondition="TraceAccepted",
+                     workers=1, timeout=1800, env={"TRACE_STD": fa, "TRACE_NOSTD": fb, "TRACE_SPEC": fs}, expect_violation=True)
+        ctx.states += rr.distinct
+        ctx.transitions += rr.generated
+        m = re.search(r'<<"TRACE-ACCEPTED", (\d+)>>', rr.out)
+        if m:
+            validated += int(m.group(1))
+            break
+        m = re.search(r'<<"TRACE-REJECTED", (\d+), (\d+)>>', rr.out)
+        if not m:
+            raise ToolError("TracePair failed:\n" + rr.out[-2000:])
+        pos = int(m.group(1))
+        if len(la) != len(ls) or len(lb) != len(ls):
+            raise ToolError(f"transcripts have different lengths: std {len(la)}, no_std {len(lb)}, corpus {len(ls)}")
+        ea, eb, es = json.loads(la[pos - 1]), json.loads(lb[pos - 1]), json.loads(ls[pos - 1])
+        rec = corpus[ea["n"] - 1]
+        ctx.violation(f"{ea['t']} item {ea['n']}: std build answers `{ea['out'][:120]}`, no_std build `{eb['out'][:120]}`" + (f", specification `{es['out'][:120]}`" if es["out"] else ""),
+                      {"kind": "pair", "record": rec, "std": ea["out"], "nostd": eb["out"], "spec": es["out"]})
+        validated += pos - 1
+        la, lb, ls = la[:pos - 1] + la[pos:], lb[:pos - 1] + lb[pos:], ls[:pos - 1] + ls[pos:]
+    ctx.traces += validated
+    ctx.nontrivial = len(corpus)
+    if corpus:
+        ctx.sample({"corpus_record": {k: corpus[0][k] for k in corpus[0] if k != "case"}, "std": json.loads(open(a).readline())["out"][:80]})
+
+
 CHECKS = {
+    "C20": {"level": "exploration", "run": run_C20, "assumptions": ASSUME_COMMON + ["the no_std build of rbpf is linked into an ordinary std binary (rv_nostd); JIT code runs from mmap'ed RWX memory passed to set_jit_exec_memory"],
+            "rule": "corpus = rendered token programs of MC_Text + seeded fuzz strings (assembler), MC_Text byte programs (disassembler), MC_Verdict byte strings (verifier), MC_Exec cases of families alu/jmp/mem/ctx/far on all VM kinds (interpreter, and x86-64 JIT where the specification defines the result); both builds produce a transcript, TLC (TracePair) requires equality line by line and equality with the specification's own answer where it has one; non-trivial = corpus items"},
     "C18": {"level": "exploration", "run": run_C18, "assumptions": ASSUME_COMMON + ["atomicity of the hardware instructions is only stressed, not proved"],
             "rule": "design: Xadd.tla, all interleavings of N <= 3 (thorough 4) processes x K <= 2 (3) adds with wrapping addends and two neighbour words (NoLostUpdate, NeighboursUntouched, termination), with negative controls split / wide; binding: 12 (thorough 200) configurations of 2..16 threads mixing interpreter (through registered allowed memory), x86-64 JIT and Cranelift, 32 and 64 bit, 2*10^5 (2*10^6) adds per thread behind a barrier, final word and surrounding bytes validated by TLC (TraceXadd); every atomic add of the bounds family incl. misaligned ones replayed; non-trivial = configurations + cases"},
     "C19": {"level": "model_checking", "run": run_C19, "assumptions": ASSUME_COMMON + ["stdout of bpf_trace_printf captured through a pipe on fd 1"],
@@ -901,6 +1009,11 @@ MANIFEST_TEXT.update({
 MANIFEST_TEXT.update({
     "C18": {"technique": "TLA+ model of concurrent atomic adds checked by TLC over all interleavings (with negative controls); stress results from real threads validated by TLC",
             "text": "The model decides the design for every interleaving of a few processes; whether `lock add`, fetch_add and atomic_rmw as emitted are really indivisible can only be stressed: many threads on mixed engines hammer one word and TLC validates that the final value is the only admissible one and that no other byte moved. A lost update is a sound alarm; its absence is statistical.",
+            "note": NOTE_COMMON},
+})
+MANIFEST_TEXT.update({
+    "C20": {"technique": "transcripts of two builds (std / no_std) over a TLC-generated corpus, compared with each other and with the TLA+ specification's answers by TLC (TracePair)",
+            "text": "Corpus-bounded, hence exploration: every item of the corpus the other checks use is answered by both builds of the crate; TLC checks the transcripts equal and, where MC_Text / MC_Verdict / MC_Exec state the answer, equal to it.",
             "note": NOTE_COMMON},
 })
 NOT_APPLICABLE = {}
